@@ -5,6 +5,7 @@
 -/
 import Gozod.Model.Checks
 import Gozod.Model.Num
+import Gozod.Model.FloatMul
 namespace Gozod.NumChecks
 open Gozod
 
@@ -13,6 +14,8 @@ inductive NPred where
   | mult (d : Num)                       -- MultipleOf / Step with integer operands
   | finite                               -- Float.Finite: neither NaN nor ±Inf
   | safe                                 -- Safe: within ±(2^53 − 1) (Gte then Lte; at most one of the two can fail)
+  | multF (d : F)                        -- Float.MultipleOf / Step: the ε-rule of validate.MultipleOf's float branch
+  | isInt                                -- Float.Int: val == math.Trunc(val)
   deriving Repr, Inhabited
 
 def safeBound (v : Num) (n : Int) : Num :=
@@ -29,6 +32,10 @@ def holds : NPred → Num → Bool
   | .mult d, v => multipleOfInts v d
   | .finite, v => isFinite v
   | .safe, v => implCmp .gte v (safeBound v (-(2 ^ 53 - 1))) && implCmp .lte v (safeBound v (2 ^ 53 - 1))
+  | .multF d, .f x => FloatMul.implMultF x d
+  | .multF _, _ => false                 -- not reached: only float schemas take a float64 divisor
+  | .isInt, .f x => FloatMul.isIntF x
+  | .isInt, _ => false                   -- not reached: `Int` exists on float schemas only
 
 /-- The documented meaning: the mathematical relation. -/
 def specHolds : NPred → Num → Bool
@@ -42,6 +49,10 @@ def specHolds : NPred → Num → Bool
       specMultipleOfInt (iv v) (iv d)
   | .finite, v => isFinite v
   | .safe, v => specCmp .gte v (safeBound v (-(2 ^ 53 - 1))) && specCmp .lte v (safeBound v (2 ^ 53 - 1))
+  | .multF d, .f x => FloatMul.specMultF x d
+  | .multF _, _ => false
+  | .isInt, .f x => FloatMul.specIsIntF x
+  | .isInt, _ => false
 
 def env : Env NPred Unit Unit Num := ⟨holds, fun _ v => v, fun _ v => v⟩
 def specEnv : Env NPred Unit Unit Num := ⟨specHolds, fun _ v => v, fun _ v => v⟩
